@@ -1413,6 +1413,10 @@ class Flow:
             if exc:
                 yield x, ("raise", itv.cls)
                 continue
+            if itv is None:
+                # `for v in None` raises
+                yield x, ("raise", "TypeError")
+                continue
             seq = self.iterable(x, itv)
             if isinstance(seq, LRef):
                 raise self.unsupported("iteration over a pair list")
